@@ -10,7 +10,7 @@ from ..common import Scratch, Timer, tier, seed, use_repo, vlog
 from ..report import Report
 from .c01 import NONE, _TO, _alarm, judge
 
-FAMILIES = ["bool2", "bool2x2", "bool3", "int1", "int2", "tuple", "list", "shadow", "oraclize"]
+FAMILIES = ["bool2", "bool2x2", "bool3", "int1", "int2", "tuple", "list", "shadow", "redef", "oraclize"]
 
 
 def fingerprint(qf):
@@ -122,7 +122,11 @@ def inline_job(j):
 
 def gen_pairs(sc):
     pairs, st = [], {"generated": 0, "distinct": 0}
+    import os
+    only = os.environ.get("VERIF_ONLY_ORIGIN")   # development aid: one family (evidence goes to out/)
     for fam in FAMILIES:
+        if only and fam != only:
+            continue
         cfg = f"SPECIFICATION Spec\nCONSTANT Family = \"{fam}\"\nINVARIANT Emit\nCHECK_DEADLOCK FALSE\n"
         r = tlc.run_model("PairGen", cfg, sc, workers=4, timeout=600, tags=("P",))
         pairs += [(fam, json.loads(v[1])) for v in r["prints"]["P"]]
